@@ -23,7 +23,7 @@ RULE = ("Generated hierarchies, built bottom-up so that parents fit: root = wish
         "padded), csr.EventMonitor and gpio.Peripheral; windows shuffled, named/anonymous, implicit / "
         "align_to / explicit slot. Oracle = the root memory map (decode_address / find_resource). "
         "Procedure: for EVERY root address, ascending: a read pass and a write pass with all select "
-        "bits, then again with a random select mask per word; a probe samples every leaf register's "
+        "bits, then again with a random select mask per word and back-to-back transfers (no idle cycle after the acknowledge); a probe samples every leaf register's "
         "r_stb/w_stb and every SRAM's cyc&stb/ack on every cycle. Checked: strobes exactly at first / "
         "last chunk of the decoded leaf and nowhere else, lane data = slice (a - start) of the value "
         "the leaf presented at its strobe, w_data = lanes written, SRAM word/lane exactness, unassigned "
@@ -33,7 +33,7 @@ RULE = ("Generated hierarchies, built bottom-up so that parents fit: root = wish
 BUDGET = {"quick": (16, 60), "thorough": (16, 1500)}
 ESSENTIAL = ["root:wb", "root:csr", "leaf:mock", "leaf:real", "leaf:sram", "leaf:evmon", "leaf:gpio",
              "unassigned_address", "unanswered_word", "hole_inside_bridge", "multi_chunk_leaf", "depth>=3",
-             "anonymous_window", "named_window", "shuffled_windows", "alignment_padding"]
+             "anonymous_window", "named_window", "shuffled_windows", "alignment_padding", "back_to_back_transfers"]
 ASSUMPTIONS = [
     "windows are dense between buses of equal granularity, at implicit addresses or explicit multiples of the window size (the stated domain)",
     "read data of a non-first chunk is compared only while the register's snapshot is known to be intact (no other first-chunk read since)",
@@ -124,7 +124,7 @@ def _spec(draw, tier):
 
 
 def strategy(tier):
-    return _spec(tier)
+    return gens.with_pre(_spec(tier))
 
 
 # ---------------------------------------------------------------------------------- building
@@ -294,6 +294,8 @@ class Leaf:
 
 
 def check(spec, stats):
+    if sim.set_pre(spec):
+        stats.label("pre_elaborated")
     import os
     tier_limit = MAX_ROOT_ADDRS.get(os.environ.get("VERIF_TIER_EFFECTIVE", "thorough"), 1 << 12)
     root = spec["root"]
@@ -479,7 +481,7 @@ def check(spec, stats):
             return None
         dec_root = h.owner[id(rmap)][1]
 
-        async def transfer(ctx, w, sel, we, dat_w, tag):
+        async def transfer(ctx, w, sel, we, dat_w, tag, idle=True):
             ans = answerer(dec_root, w)
             where = f"{tag} word {w:#x} sel={sel:#b} we={we} (answered by {ans[0] if ans else 'nobody'})"
             if wb.addr_width:
@@ -498,13 +500,16 @@ def check(spec, stats):
                     break
                 tick[0] += 1
                 await ctx.tick()
-            ctx.set(wb.cyc, 0); ctx.set(wb.stb, 0)
-            drive_leaf_values(ctx)
-            sample(ctx, counts, where + " (idle cycle after)")
-            if ctx.get(wb.ack):
-                raise Violation("C01/ack-while-idle", f"{where}: ack asserted with cyc/stb low")
-            tick[0] += 1
-            await ctx.tick()
+            if idle or acked is None:
+                ctx.set(wb.cyc, 0); ctx.set(wb.stb, 0)
+                drive_leaf_values(ctx)
+                sample(ctx, counts, where + " (idle cycle after)")
+                if ctx.get(wb.ack):
+                    raise Violation("C01/ack-while-idle", f"{where}: ack asserted with cyc/stb low")
+                tick[0] += 1
+                await ctx.tick()
+            else:
+                stats.label("back_to_back_transfers")    # the next transfer is presented right after the ack cycle
             # who answered
             if ans is None:
                 stats.label("unanswered_word")
@@ -553,7 +558,10 @@ def check(spec, stats):
                 for we in (0, 1):
                     for w in range(nwords):
                         sel = (1 << R) - 1 if sweep == 0 else hval(seed, f"sel{sweep}{we}", w, R)
-                        await transfer(ctx, w, sel, we, hval(seed, f"dw{sweep}", w, dwid), f"sweep {sweep} {'write' if we else 'read'}")
+                        await transfer(ctx, w, sel, we, hval(seed, f"dw{sweep}", w, dwid), f"sweep {sweep} {'write' if we else 'read'}",
+                                       idle=(sweep == 0))
+                    ctx.set(wb.cyc, 0); ctx.set(wb.stb, 0)
+                    await ctx.tick()
             for l in mems:
                 for row in range(l.res.data.depth):
                     g_ = ctx.get(l.res.data[row])
